@@ -376,11 +376,11 @@ Definition g_methods : table := [
   ("Generator.Filter", []);
   (* generator.go:99 *)
   ("Generator.AsAny", []);
-  (* combinators.go:289 *)
+  (* combinators.go:287 *)
   ("asAnyGen.String", [
     IAcc F_asAnyGen_gen false;
     ICall "fmt.Sprintf"]);
-  (* combinators.go:293 *)
+  (* combinators.go:291 *)
   ("asAnyGen.value", [
     IAcc F_asAnyGen_gen false;
     IAcc F_pkg_anyRuneGen false;
@@ -415,12 +415,12 @@ Definition g_methods : table := [
     IAcc F_customGen_fn false;
     ICall "g.fn";
     ICall "t.failOnError";
-    ICall "t.cleanup";
-    ICall "t.Failed"]);
-  (* combinators.go:75 *)
+    ICall "t.Failed";
+    ICall "t.cleanup"]);
+  (* combinators.go:73 *)
   ("deferredGen.String", [
     ICall "fmt.Sprintf"]);
-  (* combinators.go:80 *)
+  (* combinators.go:78 *)
   ("deferredGen.value", [
     IOnce O_deferredGen_once [
       IAcc F_deferredGen_fn false;
@@ -429,11 +429,11 @@ Definition g_methods : table := [
     IAcc F_deferredGen_g false;
     IAcc F_pkg_anyRuneGen false;
     ICall "g.g.value"]);
-  (* combinators.go:99 *)
+  (* combinators.go:97 *)
   ("filteredGen.String", [
     IAcc F_filteredGen_g false;
     ICall "fmt.Sprintf"]);
-  (* combinators.go:103 *)
+  (* combinators.go:101 *)
   ("filteredGen.value", [
     IAcc F_filteredGen_g false;
     IAcc F_pkg_anyRuneGen false;
@@ -575,45 +575,45 @@ Definition g_methods : table := [
     IAcc F_mapGen_keyFn false;
     ICall "g.keyFn";
     ICall "repeat.reject"]);
-  (* combinators.go:143 *)
+  (* combinators.go:141 *)
   ("mappedGen.String", [
     IAcc F_mappedGen_g false;
     IAcc F_mappedGen_fn false;
     ICall "fmt.Sprintf"]);
-  (* combinators.go:147 *)
+  (* combinators.go:145 *)
   ("mappedGen.value", [
     IAcc F_mappedGen_g false;
     IAcc F_pkg_anyRuneGen false;
     ICall "g.g.value";
     IAcc F_mappedGen_fn false;
     ICall "g.fn"]);
-  (* combinators.go:233 *)
+  (* combinators.go:231 *)
   ("oneOfGen.String", [
     IAcc F_oneOfGen_gens false;
     IAcc F_oneOfGen_gens false;
     ICall "g.String";
     ICall "strings.Join";
     ICall "fmt.Sprintf"]);
-  (* combinators.go:242 *)
+  (* combinators.go:240 *)
   ("oneOfGen.value", [
     IAcc F_oneOfGen_gens false;
     IAcc F_oneOfGen_gens false;
     IAcc F_pkg_anyRuneGen false;
     ICall "g.gens.value"]);
-  (* combinators.go:196 *)
+  (* combinators.go:194 *)
   ("permGen.String", [
     IAcc F_permGen_slice false;
     ICall "fmt.Sprintf"]);
-  (* combinators.go:201 *)
+  (* combinators.go:199 *)
   ("permGen.value", [
     IAcc F_permGen_slice false;
     ICall "repeat.more"]);
-  (* combinators.go:261 *)
+  (* combinators.go:259 *)
   ("ptrGen.String", [
     IAcc F_ptrGen_elem false;
     IAcc F_ptrGen_allowNil false;
     ICall "fmt.Sprintf"]);
-  (* combinators.go:265 *)
+  (* combinators.go:263 *)
   ("ptrGen.value", [
     IAcc F_ptrGen_allowNil false;
     IAcc F_ptrGen_elem false;
@@ -702,7 +702,7 @@ Definition g_methods : table := [
     IAcc F_runeGen_runes false;
     IAcc F_runeGen_tables false;
     IAcc F_runeGen_tables false]);
-  (* combinators.go:171 *)
+  (* combinators.go:169 *)
   ("sampledGen.String", [
     IAcc F_sampledGen_slice false;
     IAcc F_sampledGen_slice false;
@@ -710,7 +710,7 @@ Definition g_methods : table := [
     IAcc F_sampledGen_slice false;
     IAcc F_sampledGen_slice false;
     ICall "fmt.Sprintf"]);
-  (* combinators.go:179 *)
+  (* combinators.go:177 *)
   ("sampledGen.value", [
     IAcc F_sampledGen_slice false;
     IAcc F_sampledGen_slice false]);
